@@ -61,6 +61,8 @@ elif rnd in ('r6', 'r7'):
              f"{len(ideas)} changes already exist for this property; do NOT repeat them or close variants of them, and prefer a different clause or a different file altogether: " + "; ".join(ideas) + ". "
              "Good shapes for this round: a condition weakened for one case only (one transport, one type kind, one option value); the right step applied to the wrong one of two same-typed values; an invariant kept by two cooperating sites where only one is changed; "
              "a value computed once where it must be computed per item; an 'optimisation' or 'hardening' that looks like an improvement in review; a defect that only a second call / a re-open / a retry / a second file of the same run exposes.")
+elif rnd == 'r8':
+    avoid = ""   # unbiased round: the plain prompt, no list of ideas to avoid
 elif rnd:
     avoid = "  Other people already produced the following ideas for this property - do NOT repeat them or close variants; find different mechanisms, functions or files: " + "; ".join(AVOID.get(pid, [])) + "."
 print(f"""You are helping to evaluate a verification tool for the open-source project Workiva/frugal (a Thrift-superset IDL compiler written in Go with Go/Java/Dart/Python generators, plus a Go runtime library under lib/go). Your job is to act as a "bug seeder": produce realistic source changes that BREAK one stated semantic property of the code base while still compiling and still passing the project's existing test suite.
